@@ -5,6 +5,8 @@
 #pragma once
 #include <functional>
 #include <string>
+#include <utility>
+#include <vector>
 
 namespace verif {
 
@@ -28,6 +30,10 @@ void setHookDecider(HookDecider d);
 // uuid interning (run uuids are 128-bit hex strings; the specification sees small integers)
 int internUuid(const std::string& uuid);
 void resetScenario(); // forget interning; serial numbers keep increasing
+
+// successful init() calls of scripted plugins since the last clear: (id, post_action_delay or -1)
+std::vector<std::pair<std::string, int>>& initLog();
+std::string& lastNote(); // value of the free-form "note" argument of the last successful init
 
 extern const char* kDetName; // "verif_det"
 extern const char* kActName; // "verif_act"
